@@ -31,7 +31,8 @@ def main():
         rc, out = sh(f"git apply {os.path.join(d, 'patch.diff')}", cwd=wt)
         if rc != 0:
             print("patch does not apply to current HEAD:", out[-500:]); return 2
-        env = dict(os.environ, CIJ_REPO=wt)
+        evd = tempfile.mkdtemp(prefix="seedrun_ev_")
+        env = dict(os.environ, CIJ_REPO=wt, VERIF_EVIDENCE_DIR=evd)
         for pid in pids:
             t = time.time()
             rc, out = sh(f"./check {pid} --tier quick", cwd=VERIF, env=env)
@@ -52,6 +53,7 @@ def main():
     finally:
         sh(f"git worktree remove --force {wt}", cwd=REPO)
         shutil.rmtree(wt, ignore_errors=True)
+        shutil.rmtree(locals().get("evd", "/nonexistent"), ignore_errors=True)
         # restore lean/Generated to the real tree
         sh("/venv/bin/python tools/gen_tables.py", cwd=VERIF)
     runs_p = os.path.join(d, "runs.json")
